@@ -551,7 +551,28 @@ def _walk(ctx, I, fpath, rel_nodes, accts0=None, unfinished=False, cursor=None):
                     raise
                 undecided.append(str(u)[:200])
                 return None
-        succs = I._succs(g)
+        tk = I.g.nodes[g].data["term"].get("k")
+        if tk == "resume" or (I.g.nodes[g].cleanup and not I._succs(g, normal_only=False)):
+            # the operation is left by unwinding (after the cleanup code - scope guards included - has run): what stays visible must hold values
+            try:
+                class _R:
+                    kind, gid, node, d = "RESUME", g, I.g.nodes[g], {}
+
+                    def __getitem__(self, k):
+                        return pf if k == "facts" else None
+
+                    def get(self, k, default=None):
+                        return default
+                v = user_point(accts, pf, _R(), "unwinding out of the operation (after its cleanup code ran)")
+                paths[0] += 1
+                return v
+            except Undecided as u:
+                undecided.append(str(u)[:200])
+                return None
+        # unwinding starts only where something can actually panic or run user code (MIR gives every call an unwind edge; accessors do not unwind)
+        can_unwind = I.g.nodes[g].cleanup or any(e.kind in ("DESTROY", "CLONE", "CLONE_INTO", "MOVE_INTO", "USER", "UNKNOWN", "RESERVE", "PANIC", "ASSERT",
+                                                            "UNWRAP", "CHECKED_UNWRAP", "BUILD") for e in I.effects_at(g))
+        succs = I._succs(g, normal_only=not can_unwind)
         onpath2 = onpath + [g]
         for i, s in enumerate(succs):
             pf2 = pf
